@@ -149,6 +149,9 @@ class Layout:
         out = []
         info = {}
         for c in self.classes:
+            if 'text' in c:
+                out.append(c['text'])       # hand-written C between two generated structs (e.g. the vector-of-T model after T)
+                continue
             fields = self._fields(c['tu'], c['cls'], c.get('flt'), c.get('bases', {}), set())
             lines = []
             meta = []
@@ -351,6 +354,14 @@ class FrameTrack:
         for x in astload.walk(n):
             if id(x) not in self.hoisted and any(h(P, x) is not None for h in self.effect_hooks):
                 raise Unsupported(f'a write the spec models (hook) sits inside an expression that is erased / not translated ({key})')
+            if x.get('kind') in CALL_KINDS and x.get('valueCategory') == 'lvalue' and not self.declared_const(x) and self.mapping_of(P, x) is None \
+                    and not self.accessor(P, x):
+                # an unmapped call that hands out a mutable reference INTO a modelled (non-erased) object, e.g. `v[i]` on a
+                # vector the spec models as slots: erasing it would detach every later write from the object
+                for a in x.get('inner', [])[1:] + ([x['inner'][0]['inner'][0]] if x.get('kind') == 'CXXMemberCallExpr' and x['inner'][0].get('inner') else []):
+                    at = a.get('type', {})
+                    if P.is_modelled_struct(at) and not _is_const_q(at.get('qualType', '')):
+                        raise Unsupported(f'unmapped call yields a mutable reference into a modelled object of type {at.get("qualType")} ({key})')
             if x.get('kind') in CALL_KINDS and not self.accessor(P, x) and self.effectful(self.mapping_of(P, x)):
                 raise Unsupported(f'a call the spec maps ({cxx2c.unwrap(x["inner"][0]).get("referencedDecl", {}).get("name") or x["inner"][0].get("name")}) '
                                   f'sits inside an argument that the mapping of {key} does not translate')
@@ -372,6 +383,32 @@ class FrameTrack:
             if self.is_cell(P, c.get('type')) and strip_cv(qual(c['type'])).rstrip('&').strip() == strip_cv(qual(n['type'])) \
                     and unwrap(c).get('kind') not in ('DeclRefExpr', 'MemberExpr'):      # (a copy of a named object only reads it)
                 return P.expr(c)
+        return None
+
+    # -- expression hook: data members of ERASED objects (local helper classes such as the wlearner caches): a sub-object
+    #    shares the footprint of its object
+    def erased_field(self, P, m):
+        if not isinstance(m, dict) or m.get('kind') != 'MemberExpr' or m.get('type', {}).get('qualType') == '<bound member function type>' or not m.get('inner'):
+            return False
+        base = m['inner'][0]
+        return unwrap(base).get('kind') != 'CXXThisExpr' and self.is_cell(P, base.get('type'))
+
+    def field_hook(self, P, n):
+        k = n.get('kind')
+        if k in ('BinaryOperator', 'CompoundAssignOperator') and (n.get('opcode') == '=' or k == 'CompoundAssignOperator'):
+            if self.erased_field(P, unwrap(n['inner'][0])):
+                # a store into a member of an erased object: the write is charged to the object by the statement hook
+                # (possibly-mutating mention); the right-hand side is still evaluated
+                r = P.expr(n['inner'][1])
+                P.note('frame: store into a member of an erased object')
+                return f'((void)({r}))' if not re.fullmatch(r'nv_nondet_\w+\(\)|nv_opaque_value\(\)', r) else '((void)0)'
+        if k == 'UnaryOperator' and n.get('opcode') in ('++', '--') and self.erased_field(P, unwrap(n['inner'][0])):
+            return '((void)0)'
+        if self.erased_field(P, n):
+            base = n['inner'][0]
+            if self.is_cell(P, n.get('type')):
+                return f'(*{P.expr(base) if n.get("isArrow") else P.addr(base)})'
+            return P.nondet(P.ctype(n['type']))
         return None
 
     # -- the statement hook
@@ -435,7 +472,11 @@ class FrameTrack:
                 if e != 'nv_opaque_value()':
                     out += f'{p}(void){e};\n' + P.after(p)
                 for b in [x for x in v.get('inner', []) if x.get('kind') == 'BindingDecl']:
-                    out += f'{p}struct nv_opaque {b["name"]};\n'
+                    try:
+                        bc = P.ctype(b.get('type') or b['inner'][0]['type'])
+                    except (Unsupported, KeyError, IndexError):
+                        bc = 'struct nv_opaque'
+                    out += f'{p}{bc} {b["name"]}' + ('' if bc.startswith('struct ') else f' = {P.nondet(bc)}') + ';\n'
                 P.note('frame: structured binding of an erased object')
                 continue
             if v.get('kind') == 'VarDecl' and init and ty.endswith('&') and not _is_const_q(ty):
@@ -459,6 +500,11 @@ class FrameTrack:
                     e = P.expr(init[0])
                     out += self.touches(w, p) + f'{p}struct nv_opaque {v["name"]} = {e};\n' + P.after(p)
                     continue
+            if v.get('kind') == 'VarDecl' and init and ty.endswith('&') and self.is_cell(P, v.get('type')) \
+                    and unwrap(init[0]).get('kind') not in ('DeclRefExpr', 'MemberExpr'):
+                # a reference to (a part of) an erased object that the engine binds to a fresh unit object: nothing the spec
+                # gives a meaning to may hide in the dropped initialiser
+                self.drop_guard(P, init[0], f'initialiser of the erased reference {v.get("name")}')
             out += self.touches(w, p) + P.vardecl(v, p)
         return out
 
